@@ -210,10 +210,14 @@ def cases_modules_1d(rng, Ls, Ns, modes, Js=(1, 2, 3), NC=((1, 2),), none_masks=
                             out.append(Case(12, [mi], gb, ins, y if isinstance(y, tuple) else (A4(y),), dict(fn='DWT1DInverse', none=mask, **meta)))
     return out
 
-def cases_modules_2d(rng, LL, sizes, modes, Js=(1, 2), NC=((1, 2),), none_masks=False, four=True):
+def cases_modules_2d(rng, LL, sizes, modes, Js=(1, 2), NC=((1, 2),), none_masks=False, four=True, share=None):
+    """share='low' / 'high': the row and column banks have the SAME lowpass (resp. highpass) but different other filters
+    (needs Lr == Lc): a 4-tuple is four filters, not two banks that may be identified by one of their members"""
     out = []
     for (Lr, Lc) in LL:
         hr0, hr1, hc0, hc1 = int_filter(rng, Lr), int_filter(rng, Lr), int_filter(rng, Lc), int_filter(rng, Lc)
+        if share == 'low': hr0 = hc0.copy()
+        if share == 'high': hr1 = hc1.copy()
         for mode in modes:
             mi = MODES[mode]
             for J in Js:
@@ -229,7 +233,7 @@ def cases_modules_2d(rng, LL, sizes, modes, Js=(1, 2), NC=((1, 2),), none_masks=
                 for (H, W) in sizes(Lr, Lc):
                     for (nb, C) in NC:
                         X = rand_int(rng, (nb, C, H, W))
-                        meta = dict(Lr=Lr if four else Lc, Lc=Lc, H=H, W=W, J=J, mode=mode, NC=(nb, C), four=four)
+                        meta = dict(Lr=Lr if four else Lc, Lc=Lc, H=H, W=W, J=J, mode=mode, NC=(nb, C), four=four, share=share)
                         r = call(lambda: fwd(T(X)))
                         if isinstance(r[0], str):
                             out.append(Case(13, [mi, J], fb, [X], r, dict(fn='DWTForward', **meta))); continue
